@@ -39,12 +39,32 @@ def exhaustive(tier):
 
 
 WORDS = ["Aa", "bb", "Cc", "dd", "von", "de", "la", "Jr.", "III", "{Ee}", "{ff}", "{\\'E}x", "{\\'e}x", "1", "\\'E", "d'Aa", "{\\oe}x", "{von}", "Éa", "ça", "Strauß", "İz", "ﬁn", "ǅa", "ßa", "e", "y", "a", "ß", "O", "é", "{}\\Lukasz", "{}\\lUkasz", "\\Lx", "x{}\\Ly", "{}",
-         "A.", "b-C", "{A B}", "{a, b}", "\\\\", "x\\", "\\"]
+         "A.", "b-C", "{A B}", "{a, b}", "\\\\", "x\\", "\\",
+         "{\\v{C}}apek", "{\\v{c}}X", "{{\\'E}}x", "{a\\B}c", "{\\OE}x", "{\\ss}X", "{Universit{\\\"a}t}", "{x{\\'E}}y", "{\\'{e}}X"]
+
+
+# words whose case needs BibTeX's full rule: special characters (with letter / non-letter control sequences, the 13
+# foreign characters, nested groups, escapes inside), plain groups with nested '{\\' or escaped letters, mixed words
+CASEWORDS = ["Aa", "bb", "{Cc}", "{\\'E}x", "{\\'e}X", "{{\\'E}}x", "{{\\'e}}X", "{\\'{E}}x", "{\\'{e}}X", "{a\\B}c", "{A\\b}C",
+             "{x{\\'E}}y", "{X{\\'e}}Y", "{\\OE}x", "{\\ss}X", "{\\relax Ch}x", "{\\relax ch}X", "{\\oe x}X", "{\\'\\e}X", "{\\v{c}}X",
+             "{\\v{C}}apek", "{\\OEx}Y", "x{\\OE}", "{\\L}ukasz", "{\\l}Ukasz", "{\\ x}Y", "{\\ X}y", "{\\AA}ngstr{\\\"o}m", "{\\i}X",
+             "{}{\\'E}x", "1{\\'e}X", "{\\'1e}X", "{\\o}", "{\\O}", "{{\\O}}x", "{\\relax}X", "{\\relax{}}x", "{\\oe\\'E}", "{\\'{}}e"]
 
 
 def cases(tier, seed, shard, nshards):
     if shard == 0:
         yield {"k": "corpus"}
+    # word-case family: every 3-word name over CASEWORDS in the three forms (the middle word's case moves it in or out of von)
+    idx = 0
+    for a in CASEWORDS:
+        for b in CASEWORDS:
+            for c in (CASEWORDS if tier == "thorough" else CASEWORDS[:12]):
+                idx += 1
+                if idx % nshards != shard:
+                    continue
+                yield {"k": "name", "s": f"{a} {b} {c}"}
+                yield {"k": "name", "s": f"{a} {b}, {c}"}
+                yield {"k": "name", "s": f"{a} {b} {c}, Jr, Zz"}
     for seq in tokens.sequences(ALPHA, _L(tier), shard, nshards):
         yield {"k": "name", "s": "".join(seq)}
     r = rng_for(seed, shard, "c13")
@@ -81,7 +101,7 @@ def check_corpus(ctx):
             got = R.parse_ref(name)
         except R.Invalid:
             got = None
-        if got != want and not R.ambiguous_case(name):
+        if got != want:
             bad += 1
             ctx.sample({"reference_disagrees_with_corpus": name, "reference": got, "corpus": want})
     if bad:
@@ -143,16 +163,17 @@ def check(case, ctx):
         if err:
             out.append(Violation("valid-name-rejected", "C13:valid-name-rejected", dict(name=s, reference=ref)))
         elif not out:
-            if R.ambiguous_case(s):
-                ctx.note("partition_skipped_ambiguous_case")
-            else:
+            if True:
                 ctx.mon("reference_partition")
+                if R.ambiguous_case(s):
+                    ctx.note("partition_compared_on_nested_special_or_escaped_group")   # formerly carved out, see DESIGN 8 item 15
                 if got != ref:
                     secs = R.tokenize(s)
                     form = len(secs)
                     w = secs[0]
                     cs = [R.case(x) for x in w]
-                    mech = "von-swallows-upper" if (len(got["von"]) > len(ref["von"])) else "von-too-short" if len(got["von"]) < len(ref["von"]) else "other"
+                    mech = "word-case:" if R.ambiguous_case(s) or any(("{\\" + k) in s for k in R.FOREIGN) else ""
+                    mech += "von-swallows-upper" if (len(got["von"]) > len(ref["von"])) else "von-too-short" if len(got["von"]) < len(ref["von"]) else "other"
                     if form == 1 and len(w) >= 3 and cs[-1] == 0:
                         mech += ":final-word-lower"
                     out.append(Violation("partition-differs", f"C13:partition:form{form}:{mech}", dict(name=s, got=got, reference=ref)))
